@@ -3,7 +3,7 @@ import CM.Model.Solvers
 /-!
 Driver handler for C16: trace validation. One history per line,
 
-  trace <p0> <ev>* => <obs after ev 1> ; <obs after ev 2> ; …
+  trace <p0> [ttl=<cfg>/<min>/<typed>] <ev>* => <obs after ev 1> ; <obs after ev 2> ; …
 
   ev   P:<id>:<h|a|d>:<addr>:<key>:<rname>:<rval>:<store>:<cert>:<o|u|e>:<prov>
        C:<id>:<h|a|d>:<addr>:<key>:<rname>:<rval>:<cancelled>:<del>:<prov>
@@ -172,7 +172,17 @@ def handle (args impl : List String) : String :=
         else "ok"
       | _ => "-"
     reply "0 0 0 0 0 0" spec (typ ++ ":" ++ scn ++ ":" ++ outcome)
-  | "trace" :: p0 :: evs =>
+  | "trace" :: p0 :: rest =>
+    -- optional configuration token `ttl=<configured s>/<provider minimum s>/<typed>`: the record TTL
+    -- set on the DNSManager and the provider's TTL policy. It is NOT an input of the model or of the
+    -- specification (every created record is deleted again whatever the provider made of its TTL);
+    -- it is part of the replay and of the branch tag.
+    let (cfg, evs) := match rest with
+      | c :: r => if c.startsWith "ttl=" then (c, r) else ("", rest)
+      | [] => ("", rest)
+    let ttlAdj := match ((cfg.drop 4).toString.splitOn "/").map String.toNat? with
+      | [some c, some m, _] => decide (c < m)
+      | _ => false
     match decPairs p0, allSome (evs.map decEv) with
     | some p0, some evs =>
       let addrs := sortNat ((evs.filterMap (fun e => if (evCh e).typ.listens then some (evCh e).addr else none)).eraseDups)
@@ -201,7 +211,8 @@ def handle (args impl : List String) : String :=
       let faults := evs.any (fun e => match e with
         | .present _ r => !r.store || !r.cert || r.bind != .ok || !r.prov
         | .cleanUp _ r => r.cancelled || !r.del || !r.prov)
-      reply model spec ("n" ++ toString evs.length ++ "p" ++ toString nP ++ (if faults then "f" else ""))
+      reply model spec ("n" ++ toString evs.length ++ "p" ++ toString nP ++ (if faults then "f" else "") ++
+        (if ttlAdj && evs.any (fun e => (evCh e).typ == .dns) then "t" else ""))
     | _, _ => bad
   | _ => bad
 
